@@ -11,6 +11,7 @@ package sched
 
 import (
 	"fmt"
+	"math/rand"
 	"regexp"
 	"runtime"
 	"sort"
@@ -25,6 +26,7 @@ type parked struct {
 	ev     string
 	resume chan struct{}
 	since  time.Time
+	ready  func() bool // nil: always enabled
 }
 
 // Step is one scheduling decision: who was resumed, at which event, out of whom.
@@ -111,7 +113,12 @@ func (s *Sched) Name() string {
 
 // Yield parks the calling goroutine at a yield point labelled ev.  Goroutines the library
 // spawned itself get the names lib0, lib1, ... in order of their first yield.
-func (s *Sched) Yield(ev string) {
+func (s *Sched) Yield(ev string) { s.YieldIf(ev, nil) }
+
+// YieldIf is Yield with an enabledness predicate: while ready() is false the goroutine is
+// parked but not offered to the controller (it waits for a lock somebody else holds).  ready
+// is evaluated by the controller at quiescent points only.
+func (s *Sched) YieldIf(ev string, ready func() bool) {
 	id := gid()
 	s.mu.Lock()
 	if s.disabled || id == s.ctrl {
@@ -124,7 +131,7 @@ func (s *Sched) Yield(ev string) {
 		s.libs++
 		s.names[id] = name
 	}
-	p := &parked{name: name, ev: ev, resume: make(chan struct{}), since: time.Now()}
+	p := &parked{name: name, ev: ev, resume: make(chan struct{}), since: time.Now(), ready: ready}
 	s.parked[name] = p
 	s.mu.Unlock()
 	<-p.resume
@@ -191,8 +198,10 @@ func (s *Sched) enabled() []string {
 	s.mu.Lock()
 	defer s.mu.Unlock()
 	out := make([]string, 0, len(s.parked))
-	for n := range s.parked {
-		out = append(out, n)
+	for n, p := range s.parked {
+		if p.ready == nil || p.ready() {
+			out = append(out, n)
+		}
 	}
 	sort.Strings(out)
 	return out
@@ -245,9 +254,10 @@ func (s *Sched) Run(pick func(step int, enabled []string) int, timerWait time.Du
 			}
 		}
 		i := pick(step, en)
-		if i < 0 || i >= len(en) {
+		if i < 0 {
 			i = 0
 		}
+		i %= len(en) // random walks hand in large random numbers (Walks); DFS choices are below the width
 		widths = append(widths, len(en))
 		s.resume(en[i], en)
 	}
@@ -290,6 +300,33 @@ func Explore(max int, run func(choices []int) (widths []int)) (n int, exhaustive
 			return n, false
 		}
 	}
+}
+
+// Walks runs n schedules drawn from a PRNG: each is a list of large random numbers that Run
+// reduces modulo the width of the choice point (Effective turns it into the replayable list).
+func Walks(n int, seed int64, run func(choices []int) (widths []int)) int {
+	r := rand.New(rand.NewSource(seed))
+	for k := 0; k < n; k++ {
+		choices := make([]int, 3000)
+		for i := range choices {
+			choices[i] = r.Intn(1 << 20)
+		}
+		run(choices)
+	}
+	return n
+}
+
+// Effective: the indices actually taken when choices was followed through the given widths.
+func Effective(choices, widths []int) []int {
+	out := make([]int, 0, len(widths))
+	for i, w := range widths {
+		c := 0
+		if i < len(choices) && w > 0 {
+			c = choices[i] % w
+		}
+		out = append(out, c)
+	}
+	return out
 }
 
 // PickFrom returns a pick function that follows choices and then always takes index 0.
